@@ -147,7 +147,7 @@ def error_model(ref, eta):
     z = np.sqrt(ref["z2"])
     wabs = np.sqrt(ref["w2"])
     dw = eta * ref["scale"]
-    dw2 = 2 * wabs * dw + eta * ref["w2"]
+    dw2 = 2 * wabs * dw + dw * dw + eta * ref["w2"]
     dt1 = 2 * z * dw + eta * (1 + np.abs(ref["tc1"]) + 2 * z * wabs)
     dD = 2 * np.abs(ref["tc1"]) * dt1 + 4 * ref["z2"] * dw2 + eta * (ref["tc1"] ** 2 + 4 * ref["z2"] * ref["w2"])
     return dict(dw=dw, dw2=dw2, dt1=dt1, dD=dD, z=z, wabs=wabs)
@@ -249,7 +249,8 @@ def check_case(spec):
     with np.errstate(all="ignore"):
         dsq = em["dD"] / (2 * sqD)
         xm = np.maximum(np.abs(xl), np.abs(2 * ref["w2"] / np.where(den != 0, den, 1)))
-        dx = xm * (np.where(ref["w2"] > 0, em["dw2"] / np.where(ref["w2"] > 0, ref["w2"], 1), 0) + (em["dt1"] + dsq) / den + ETA)
+        # x = 2|w|^2/den: absolute propagation (the relative form breaks down when w cancels to exactly 0 in the reference)
+        dx = 2 * em["dw2"] / den + xm * ((em["dt1"] + dsq) / den + ETA)
     dpsi = em["dw"] + em["z"] * dx + ETA * (em["wabs"] + em["z"] * np.abs(xl))
     # (ii) x == |psi'|^2
     p2 = np.abs(pl) ** 2
